@@ -58,6 +58,7 @@ def outline(c_text, cname, short):
             l2 = subst(l)
             l2 = re.sub(r'\breturn _vp_retdummy;', '{ s->vp_returned = 1; return; }', l2)
             l2 = re.sub(r'\breturn ([^;]+);', r'{ s->vp_returned = 1; s->vp_retval = \1; return; }', l2)
+            l2 = re.sub(r'(?<![\w{] )\breturn;', '{ s->vp_returned = 1; return; }', l2) if 'vp_returned = 1; ' not in l2 else l2
             if in_loop: l2 = re.sub(r'\bbreak;', '{ s->vp_exited = 1; return; }', l2)
             out.append(l2)
         return out
@@ -69,7 +70,7 @@ def outline(c_text, cname, short):
     opened = balance(init_r)
     init_r += ['}'] * max(opened, 0)
     ex_r = ['{'] * max(-balance(ex_r), 0) + ex_r
-    st = 'struct %s_st {\n%s\n  _Bool vp_returned; _Bool vp_exited; %s vp_retval;\n};' % (short, '\n'.join('  %s %s;' % f for f in fields), rett)
+    st = 'struct %s_st {\n%s\n  _Bool vp_returned; _Bool vp_exited;%s\n};' % (short, '\n'.join('  %s %s;' % f for f in fields), '' if rett == 'void' else ' %s vp_retval;' % rett)
     out = [st,
            'void %s__init(struct %s_st *s)\n%s__INIT_CONTRACT\n{\n%s\n}' % (short, short, short.upper(), '\n'.join(init_r)),
            'void %s__iter(struct %s_st *s)\n%s__ITER_CONTRACT\n{\n%s\n}' % (short, short, short.upper(), '\n'.join(it_r)),
